@@ -19,6 +19,11 @@ import Mathlib.Tactic.Linarith
 * `C18_initial_structure`, `C18_initial_entry`, `C18_initial_structure_filter` (code as it is);
   pre-fix: `C18_initial_structure_legacy_partial`, `C18_initial_structure_counterexample`
 * `C18_table_pairs`, `C18_readback`, `C18_roundtrip` (general), `C18_roundtrip_example`
+* `C18_table_id_scalar`, `C18_table_id_per_parameter`, `C18_table_outcomes_pairs`   the ID column of
+  individual / hierarchical posteriors and the blocks of runs that broke down (missing values under
+  their own run number); slips: `C18_table_id_order_counterexample`, `C18_table_hoisted_counterexample`
+* `C18_shared_predictive_model`   objects built from one `PredictiveModel` read through their own map;
+  slip: `C18_shared_predictive_model_alias_counterexample`
 -/
 set_option linter.unusedSectionVars false
 set_option linter.unusedSimpArgs false
@@ -1195,5 +1200,190 @@ theorem C18_param_map_exchange_counterexample :
       readback ds [] ["A", "B", "C"] pm none = .ok [1, 0, 2]) := by
   refine ⟨by decide, by decide, by decide, _, rfl, by decide⟩
 
+
+/-! ## optimisation table: label columns and broken runs -/
+
+/-- **the ID column of an individual posterior**: the one label of the posterior stands in every
+    row of the block, next to every parameter name — for any number of parameters -/
+theorem C18_table_id_scalar (i : Option String) (names : List String) :
+    labelColumns false (.scalar i) names
+      = .ok ⟨names.length, List.replicate names.length i, names.map some⟩ := by
+  unfold labelColumns LabelFrame.setParam LabelFrame.setId LabelFrame.empty
+  simp [bind, Except.bind]
+
+/-- hierarchical / filter posteriors: the k-th row carries the k-th ID -/
+theorem C18_table_id_per_parameter (ids : List (Option String)) (names : List String)
+    (h : ids.length = names.length) :
+    labelColumns false (.perParam ids) names = .ok ⟨names.length, ids, names.map some⟩ := by
+  unfold labelColumns LabelFrame.setParam LabelFrame.setId LabelFrame.empty
+  by_cases h0 : names.length = 0
+  · have hn : names = [] := List.length_eq_zero_iff.mp h0
+    have hi : ids = [] := List.length_eq_zero_iff.mp (h.trans h0)
+    subst hn; subst hi
+    simp [bind, Except.bind]
+  · simp [bind, Except.bind, h0, h]
+
+/-- the two statements exchanged: the label of an individual posterior is broadcast over a frame
+    that has no rows yet and is lost — every row shows a missing ID (for every label and every
+    non-empty name list this differs from the code as it is) — while per-parameter ID lists give
+    the same columns in either order -/
+theorem C18_table_id_order_counterexample :
+    (∀ (i : Option String) (names : List String), labelColumns true (.scalar i) names
+      = .ok ⟨names.length, List.replicate names.length none, names.map some⟩) ∧
+    (∀ (a : String) (names : List String), names ≠ [] →
+      labelColumns true (.scalar (some a)) names ≠ labelColumns false (.scalar (some a)) names) ∧
+    (∀ (ids : List (Option String)) (names : List String), ids.length = names.length →
+      labelColumns true (.perParam ids) names = labelColumns false (.perParam ids) names) := by
+  refine ⟨?_, ?_, ?_⟩
+  · intro i names
+    unfold labelColumns LabelFrame.setParam LabelFrame.setId LabelFrame.empty
+    simp [bind, Except.bind]
+  · intro a names hne
+    have h1 : labelColumns true (.scalar (some a)) names
+        = .ok ⟨names.length, List.replicate names.length none, names.map some⟩ := by
+      unfold labelColumns LabelFrame.setParam LabelFrame.setId LabelFrame.empty
+      simp [bind, Except.bind]
+    rw [h1, C18_table_id_scalar]
+    intro h
+    cases names with
+    | nil => exact hne rfl
+    | cons n ns =>
+      simp [List.replicate_succ] at h
+  · intro ids names h
+    rw [C18_table_id_per_parameter ids names h]
+    unfold labelColumns LabelFrame.setParam LabelFrame.setId LabelFrame.empty
+    by_cases h0 : names.length = 0
+    · have hn : names = [] := List.length_eq_zero_iff.mp h0
+      have hi : ids = [] := List.length_eq_zero_iff.mp (h.trans h0)
+      subst hn; subst hi
+      simp [bind, Except.bind]
+    · have h0' : ids.length ≠ 0 := by omega
+      simp [bind, Except.bind, h0, h0', h]
+
+/-- the code as it is: what a run writes does not depend on what earlier runs left behind -/
+theorem resolveRuns_asis {α : Type} (nan : α) (K : Nat) (outs : List (Outcome α)) (last : List α × α) :
+    resolveRuns false nan K outs last = outs.map (fun o => o.getD (List.replicate K nan, nan)) := by
+  induction outs generalizing last with
+  | nil => rfl
+  | cons o os ih =>
+    cases o with
+    | none => simp [resolveRuns, ih]
+    | some e => simp [resolveRuns, ih]
+
+/-- **table pairs, with runs that break down**: for every posterior kind (one label / one ID per
+    parameter), any number of runs of which any subset broke down, row `r·K + k` carries the `k`-th
+    name, the `k`-th ID and the run number `r + 1`; it carries the `k`-th estimate and the score of
+    run `r` if that run finished, and the missing-value marker in both places if it did not —
+    never another run's numbers -/
+theorem C18_table_outcomes_pairs {α : Type} (nan : α) (pid : PostId) (names : List String)
+    (outs : List (Outcome α)) (K : Nat) (hn : names.length = K)
+    (hp : ∀ ids, pid = .perParam ids → ids.length = K)
+    (he : ∀ e, some e ∈ outs → e.1.length = K) (r k : Nat) (hr : r < outs.length) (hk : k < K) :
+    ∃ t, optTableOutcomes false false nan pid names outs = .ok t ∧ t.length = outs.length * K ∧
+      ∃ row, t[r * K + k]? = some row ∧ some row.param = names[k]? ∧ row.run = r + 1 ∧
+        (match pid with
+          | .scalar i => row.id = i
+          | .perParam ids => some row.id = ids[k]?) ∧
+        (match outs[r] with
+          | some e => some row.est = e.1[k]? ∧ row.score = e.2
+          | none => row.est = nan ∧ row.score = nan) := by
+  subst hn
+  unfold optTableOutcomes
+  rw [resolveRuns_asis]
+  set runs := outs.map (fun o => o.getD (List.replicate names.length nan, nan)) with hruns
+  have hlen : runs.length = outs.length := by simp [hruns]
+  have heK : ∀ e ∈ runs, e.1.length = names.length := by
+    intro e hmem
+    rw [hruns, List.mem_map] at hmem
+    obtain ⟨o, ho, rfl⟩ := hmem
+    cases o with
+    | none => simp
+    | some e' => simpa using he e' ho
+  have hrr : r < runs.length := by omega
+  have hrun : runs[r] = (outs[r]).getD (List.replicate names.length nan, nan) := by
+    simp [hruns]
+  cases pid with
+  | scalar i =>
+    rw [C18_table_id_scalar]
+    obtain ⟨hl, row, hrow, hid, hpar, hest, hsc, hrn⟩ :=
+      C18_table_pairs (List.replicate names.length i) names runs names.length (by simp) rfl heK r k hrr hk
+    refine ⟨_, rfl, by rw [hl, hlen], row, hrow, hpar, hrn, ?_, ?_⟩
+    · simpa [List.getElem?_replicate, hk] using hid
+    · rw [hrun] at hest hsc
+      cases ho : outs[r] with
+      | none =>
+        rw [ho] at hest hsc
+        simp only [Option.getD_none] at hest hsc
+        refine ⟨?_, hsc⟩
+        simpa [List.getElem?_replicate, hk] using hest
+      | some e =>
+        rw [ho] at hest hsc
+        exact ⟨hest, hsc⟩
+  | perParam ids =>
+    have hi : ids.length = names.length := hp ids rfl
+    rw [C18_table_id_per_parameter ids names hi]
+    obtain ⟨hl, row, hrow, hid, hpar, hest, hsc, hrn⟩ :=
+      C18_table_pairs ids names runs names.length hi rfl heK r k hrr hk
+    refine ⟨_, rfl, by rw [hl, hlen], row, hrow, hpar, hrn, hid, ?_⟩
+    rw [hrun] at hest hsc
+    cases ho : outs[r] with
+    | none =>
+      rw [ho] at hest hsc
+      simp only [Option.getD_none] at hest hsc
+      refine ⟨?_, hsc⟩
+      simpa [List.getElem?_replicate, hk] using hest
+    | some e =>
+      rw [ho] at hest hsc
+      exact ⟨hest, hsc⟩
+
+/-- `nan` defaults set once before the loop and `except: pass`: a run that breaks down after a
+    finished one is tabulated with the finished run's estimate and score under its own run number
+    (leading broken runs still show the marker) -/
+theorem C18_table_hoisted_counterexample :
+    optTableOutcomes true false "nan" (.scalar (some "a")) ["p"] [none, some (["1.5"], "-2"), none]
+      = .ok [⟨some "a", "p", "nan", "nan", 1⟩, ⟨some "a", "p", "1.5", "-2", 2⟩,
+             ⟨some "a", "p", "1.5", "-2", 3⟩] ∧
+    optTableOutcomes false false "nan" (.scalar (some "a")) ["p"] [none, some (["1.5"], "-2"), none]
+      = .ok [⟨some "a", "p", "nan", "nan", 1⟩, ⟨some "a", "p", "1.5", "-2", 2⟩,
+             ⟨some "a", "p", "nan", "nan", 3⟩] := by
+  constructor <;> rfl
+
+/-! ## one PredictiveModel, several consumers -/
+
+/-- **a shared `PredictiveModel`**: whatever `PosteriorPredictiveModel`s are built from one
+    `PredictiveModel` before and after (any maps, any order, any number), an object reads the
+    model's names through ITS OWN map: the `use j` after the events `pre` answers with the original
+    names mapped by the `j`-th map — exactly the names `readback` resolves -/
+theorem C18_shared_predictive_model (pre post : List PEvent) (pred : List String)
+    (objs : List (List String)) (j : Nat) :
+    sharedRun false (pre ++ .use j :: post) pred objs
+      = sharedRun false pre pred objs
+        ++ (objs ++ (constructMaps pre).map (fun pm => pred.map (mapName pm)))[j]?
+        :: sharedRun false post pred (objs ++ (constructMaps pre).map (fun pm => pred.map (mapName pm))) := by
+  induction pre generalizing objs with
+  | nil => simp [sharedRun, constructMaps]
+  | cons e es ih =>
+    cases e with
+    | construct pm =>
+      simp only [List.cons_append, sharedRun, Bool.false_eq_true, if_false, constructMaps, List.map_cons]
+      rw [ih]
+      simp [List.append_assoc]
+    | use i =>
+      simp only [List.cons_append, sharedRun, constructMaps]
+      rw [ih]
+
+/-- the accessor handing out the list itself: an object built later (without any map) reads the
+    columns chosen by the first object's map, and an object built earlier is re-pointed by a later
+    construction -/
+theorem C18_shared_predictive_model_alias_counterexample :
+    sharedRun true [.construct [("a", "Mean a")], .construct [], .use 1] ["a", "b"] []
+      = [some ["Mean a", "b"]] ∧
+    sharedRun false [.construct [("a", "Mean a")], .construct [], .use 1] ["a", "b"] []
+      = [some ["a", "b"]] ∧
+    sharedRun true [.construct [], .use 0, .construct [("a", "Mean a")], .use 0] ["a", "b"] []
+      = [some ["a", "b"], some ["Mean a", "b"]] ∧
+    sharedRun false [.construct [], .use 0, .construct [("a", "Mean a")], .use 0] ["a", "b"] []
+      = [some ["a", "b"], some ["a", "b"]] := by
+  refine ⟨by decide, by decide, by decide, by decide⟩
 
 end ChiModel.Inference
